@@ -24,7 +24,9 @@ JudgeRun(g, s, ref) ==
       step(acc, k) ==
         LET c == s.calls[k]
             delivered == acc.delivered \o c.out
-            v1 == (IF c.c > c.ai \/ c.p > c.ao \/ c.touched_outside # 0 THEN {<<k, "I1-wrote-or-read-beyond-avail">>} ELSE {})
+            \* after a negative (error) return the input counters are not relied upon (no property constrains them; the guard pages
+            \* of the harness still catch any real access outside the buffers); writing beyond avail_out is never allowed
+            v1 == (IF (c.ret >= 0 /\ c.c > c.ai) \/ c.p > c.ao \/ c.touched_outside # 0 THEN {<<k, "I1-wrote-or-read-beyond-avail">>} ELSE {})
                   \cup (IF c.ret >= 0 /\ (Len(c.out) # c.p \/ c.dto # c.p) THEN {<<k, "I1-total_out-disagrees-with-pointer-advance">>} ELSE {})
             \* bytes handed over by a call that reports no error must be the next bytes of the reference decode (what a call
             \* returns together with an error code is not relied upon: the property only constrains reported success)
